@@ -107,6 +107,11 @@ type Service struct {
 	pendingAttestations      map[phase0.Slot]bool
 	pendingAttestationsMutex sync.RWMutex
 
+	// Tracking for proposals.
+	lastProposalSlot      phase0.Slot
+	lastProposalSlotSet   bool
+	lastProposalSlotMutex sync.Mutex
+
 	// attesterDutiesMutex ensures that obtaining and scheduling attester duties
 	// is not interleaved with a refresh of those duties.
 	attesterDutiesMutex sync.Mutex
